@@ -487,6 +487,59 @@ def run_batch(spec):
             rec = run_design("zd", nested_r, descr_r, sc, None, flag, key_fn=lambda coords: ids[id(coords)])
             st("zd_real_count_drops_in_list" if drops else "zd_real_monotone_list")
             handle(rec, nested_r, sc, {"kind": "zd-real-bizoned-list", "lot": [lx, ly, b_min, bx, by], "threshold_count": thr, "a": a, "flag": flag, "slope": slope})
+    # ---- the same three search classes on the repository's OWN candidate domains (near-square, rectangle, bi-rectangle nested,
+    # polygon-constrained nested): whatever shape those lists really have is the shape the searches run on
+    from ghedesigner.domains import bi_rectangle_nested, polygonal_land_constraint, rectangular, square_and_near_square
+
+    from vf.gen import lots as GLOT
+
+    for it in range(spec.get("nrealdom", max(8, spec["nnested"] // 10))):
+        which = ["nearsquare", "rectangle", "birectangle", "polygon"][it % 4]
+        try:
+            with contextlib.redirect_stdout(io.StringIO()):
+                if which == "nearsquare":
+                    n_max = int(g.integers(3, 12))
+                    dom, des = square_and_near_square(1, n_max, float(round(g.uniform(4, 8), 1)))
+                    nested_r, descr_r, kind = [dom], [des], "1d"
+                elif which == "rectangle":
+                    b_min = float(round(g.uniform(4, 7), 1))
+                    dom, des = rectangular(float(round(g.uniform(30, 80), 1)), float(round(g.uniform(25, 60), 1)), b_min, float(round(b_min * g.uniform(1.5, 3.0), 1)))
+                    nested_r, descr_r, kind = [dom], [des], "1d"
+                elif which == "birectangle":
+                    b_min = float(round(g.uniform(4, 7), 1))
+                    nested_r, descr_r = bi_rectangle_nested(float(round(g.uniform(30, 80), 1)), float(round(g.uniform(25, 60), 1)), b_min,
+                                                            float(round(b_min * g.uniform(1.5, 3.0), 1)), float(round(b_min * g.uniform(1.5, 3.0), 1)))
+                    kind = "2d"
+                else:
+                    size = float(round(g.uniform(40, 80), 1))
+                    poly = [GLOT.convex, GLOT.star, GLOT.orthogonal][int(g.integers(0, 3))](g, size)
+                    b_min = float(round(g.uniform(4, 7), 1))
+                    nested_r, descr_r = polygonal_land_constraint(b_min, float(round(b_min * g.uniform(1.5, 3.0), 1)), float(round(b_min * g.uniform(1.5, 3.0), 1)),
+                                                                  [[list(p) for p in poly]], [])
+                    kind = "zd"
+        except Exception:  # noqa: BLE001 - a window too narrow for the generator: not this lane's subject (C03 / C04)
+            st("real_domain_skipped")
+            continue
+        if not nested_r or any(len(fl) == 0 for fl in nested_r):
+            st("real_domain_skipped")
+            continue
+        ids = {id(f): (li, fi) for li, fl in enumerate(nested_r) for fi, f in enumerate(fl)}
+        cnt_r = counts_of(nested_r)
+        allc = sorted(set(cnt_r.values()))
+        if len(allc) < 4:
+            st("real_domain_skipped")
+            continue
+        for rep_ in range(4):
+            thr = float(g.uniform(allc[0] - 0.5, allc[-1] * 1.08))
+            a = float(g.uniform(0.02, 0.4))
+            tab = {k: a * (thr - c) + 0.0007 - 0.00001 * k[1] - 0.0000013 * k[0] for k, c in cnt_r.items()}
+            flag = bool(g.random() < 0.4)
+            slope = float(g.choice([0.002, 0.02, 0.2]))
+            cap = None if (kind == "zd" or g.random() < 0.5) else int(g.choice(allc[1:])) + int(g.integers(0, 2))
+            sc = Script(tab, slope)
+            rec = run_design(kind, nested_r if kind != "1d" else nested_r[0], descr_r if kind != "1d" else descr_r[0], sc, cap, flag, key_fn=lambda coords: ids[id(coords)])
+            st("real_domain_" + which)
+            handle(rec, nested_r, sc, {"kind": kind + "-real-" + which, "threshold_count": thr, "a": a, "cap": cap, "flag": flag, "slope": slope, "counts": allc[:6] + allc[-3:]})
     # ---- row-wise search: real field generation on real lots, scripted count -> excess
     from ghedesigner.rowwise import field_optimization_fr, field_optimization_wp_space_fr, gen_shape
 
